@@ -82,7 +82,24 @@ EXTRA = {
  "C20": _MAG + _SEQ + " One instant under changing offsets in sequence; Offset::Local under a changing system zone (hooks); relative claims judged on every constructible value.",
 }
 
+_UF = " The property's trait methods are also called through the trait (generic code) and must agree with method syntax."
+_R10 = {
+ "C01": " Triples also written out as text through every text constructor (year 0 included); one value, one date for DateTimes parsed from piled-up fraction fields.",
+ "C02": " The judged symbol also twice in one pattern, with '' and quoted separators.",
+ "C03": _UF, "C04": _UF, "C05": _UF, "C09": _UF, "C10": _UF,
+ "C06": _UF + " Route independence: operands reached through -= Time, += Time, Date round trip, clear_until_hour, sub_* must give the same differences as independently built ones.",
+ "C07": _UF + " Rows around days a whole number of 400-year cycles from the usual day-number epochs; anniversaries of leap days.",
+ "C13": " Fractions with long runs of nines/zeros crossing the ninth digit; a {min,max,max+1,typical}^5 field grid.",
+ "C14": " Cut-position straddlers (a multi-byte character across every byte offset up to 1100) in every text position; range-end texts with a day-of-year field.",
+ "C15": " Setters on Offset::Local values after the zone file changed behind the same name; the Local battery in child processes under 48 hostile environments (TZ, TZDIR, LANG, …).",
+ "C16": " EVERY Unicode scalar value in place of each of nine syntax positions of a base expression.",
+ "C17": " Schedules whose day of month never occurs in the listed months, OR-ed with a restricted weekday.",
+ "C18": " Offset::Local must follow the zone file when it changes behind the same name (rewritten, same size and mtime, symlink target replaced, re-pointed, recreated).",
+ "C19": " Generated footers (both rules at the same instant; straddlers behind 14 prefixes); the Local battery in child processes under 48 hostile environments.",
+}
 for _k, _v in _R9.items():
+    EXTRA[_k] = EXTRA.get(_k, "") + _v
+for _k, _v in _R10.items():
     EXTRA[_k] = EXTRA.get(_k, "") + _v
 
 
@@ -106,7 +123,7 @@ def main():
                 "evidence_file": "/verif/evidence/%s.json" % pid,
                 "replay_cmd_template": "./check --replay {path}",
                 "engine": "astromon",
-                "level_claimed": {"category": "fault_enumeration" if pid == "C19" else "exploration", "text": text + EXTRA.get(pid, ""), "design_ref": ref + ", §10.11–§10.13"},
+                "level_claimed": {"category": "fault_enumeration" if pid == "C19" else "exploration", "text": text + EXTRA.get(pid, ""), "design_ref": ref + ", §10.11–§10.14"},
                 "level_note": note,
                 "technique": "runtime monitoring: reference-model oracle + panic/overflow trap (arithmetic sanitizer build and release build) over generated and enumerated executions; results observed differentially through every public read-out route against independently built values; call-sequence and fresh-thread histories for hidden state",
             })
